@@ -21,7 +21,10 @@ def scratch_dir() -> str:
     """Per-process scratch directory outside /repo and /verif, removed at exit."""
     global _scratch
     if _scratch is None:
-        base = os.environ.get("VERIF_SCRATCH_BASE") or tempfile.gettempdir()
+        base = os.environ.get("VERIF_SCRATCH_BASE")
+        if not base:
+            # tmpfs keeps per-execution mkdir/rmtree out of the disk journal (16 workers contend otherwise)
+            base = "/dev/shm" if os.path.isdir("/dev/shm") and os.access("/dev/shm", os.W_OK) else tempfile.gettempdir()
         _scratch = tempfile.mkdtemp(prefix="sfverif-", dir=base)
         import atexit
 
